@@ -173,6 +173,8 @@ def enum_configs(tier):
         cfgs.append(["sr_bits", bits])
         if bits >= 2:
             cfgs.append(["num_nbit", bits])
+    for bits in range(3, 11 if tier == "quick" else 15):
+        cfgs.append(["num_getprime", bits])       # "a random N-bit prime": every N-bit prime equally likely (sieve-decided sizes)
     for n in list(range(1, 257)) + ([300, 511, 512, 513] if tier == "thorough" else []):
         cfgs.append(["sr_randrange", n])
     for a, b in [(0, 1), (0, 7), (3, 9), (-5, 5), (10, 300), (0, 255), (0, 256), (1, 6)]:
@@ -233,6 +235,10 @@ def enum_target(cfg):
     if kind == "num_nbit":
         n = cfg[1]
         return (lambda rf: number.getRandomNBitInteger(n, rf)), set(range(1 << (n - 1), 1 << n)), "number.getRandomNBitInteger"
+    if kind == "num_getprime":
+        n = cfg[1]
+        primes = set(x for x in range((1 << (n - 1)) | 1, 1 << n, 2) if all(x % d for d in range(3, int(x ** 0.5) + 1, 2)))
+        return (lambda rf: number.getPrime(n, rf)), primes, "number.getPrime"
     if kind == "num_range":
         a, b = cfg[1], cfg[2]
         return (lambda rf: number.getRandomRange(a, b, rf)), set(range(a, b)), "number.getRandomRange"
@@ -304,9 +310,14 @@ class Machine(object):
         if r < 0.70:
             return {"kind": "boundary_eccgen", "curve": rng.choice(CURVES), "tape": rng.choice(TAPE_KINDS),
                     "seed": rng.randrange(1 << 30), "ops": []}
-        if r < 0.88:
+        if r < 0.84:
             return {"kind": "boundary_sign", "key": rng.choice(["dsa", "p256", "p384", "p521", "p224"]),
                     "tape": rng.choice(TAPE_KINDS), "seed": rng.randrange(1 << 30), "ops": []}
+        if r < 0.87:
+            return {"kind": "boundary_dsagen", "value": rng.choice(["0", "1", "q-3", "q-2", "q-1", "q-1", "q", "q+1", "ff"]),
+                    "back": rng.choice([1, 2, 2, 3, 3]), "seed": rng.randrange(1 << 30), "ops": []}
+        if r < 0.88:
+            return {"kind": "rsagen_size", "bits": rng.choice([1025, 1027, 1031, 1033, 1024, 1026]), "seed": rng.randrange(1 << 30), "ops": []}
         if r < 0.93:
             return {"kind": "replay_history", "what": rng.choice(["primes", "primes", "dsa_keys", "getprime", "rsa_key", "ecc_keys"]),
                     "seed": rng.randrange(1 << 30), "bits": rng.choice([160, 161, 200, 256]), "ops": []}
@@ -540,6 +551,94 @@ class Machine(object):
                 except TapeExhausted:
                     return None
             self._collision_probe(ctx, "ECC.generate", value_of, order - 1, 1, case["seed"])
+
+    def run_boundary_dsagen(self, case, ctx):
+        """DSA.generate on a given domain: the read that carries the private value is found by recording one run, then
+        replaced by a boundary value (right-aligned, big-endian): whatever the mapping is, x stays in [1, q-1]."""
+        from Crypto.PublicKey import DSA
+        dom = self.dsa.domain()
+        p_, q, g = int(dom[0]), int(dom[1]), int(dom[2])
+        base = data("dsagen%s" % case["seed"], 40000)
+        ctx.state(("dsagen", case["value"], case["back"]))
+        ctx.fault("rng.engineered_read")
+        t0 = Tape(base)
+        entropy.reset_stream("g-0")
+        try:
+            DSA.generate(1024, randfunc=t0, domain=dom)
+        except TapeExhausted:
+            ctx.probe("dead_rng_detected")
+            return
+        finally:
+            entropy.reset_stream(0)
+        offs, pos = [], 0
+        for n in t0.calls:
+            offs.append((pos, n))
+            pos += n
+        if len(offs) < 2:
+            return
+        # the span that is replaced: the last read, the last two reads together (Integer.random reads the top byte
+        # separately), or the last |q| bytes consumed
+        if case["back"] == 1:
+            off, n = offs[-1]
+        elif case["back"] == 2:
+            off, n = offs[-2][0], offs[-2][1] + offs[-1][1]
+        else:
+            n = (q.bit_length() + 7) // 8
+            off = pos - n
+        v = {"0": 0, "1": 1, "q-3": q - 3, "q-2": q - 2, "q-1": q - 1, "q": q, "q+1": q + 1, "ff": (1 << (8 * n)) - 1}[case["value"]]
+        v &= (1 << (8 * n)) - 1
+        patched = base[:off] + v.to_bytes(n, "big") + base[off + n:]
+        t = Tape(patched)
+        entropy.reset_stream("g-1")
+        try:
+            k = DSA.generate(1024, randfunc=t, domain=dom)
+        except TapeExhausted:
+            ctx.probe("dead_rng_detected")
+            return
+        except Exception as e:
+            ctx.violate("entropy/DSA.generate/exception:%s" % type(e).__name__, "DSA.generate raised %r under a legal tape" % e,
+                        observed=repr(e), expected="key")
+        finally:
+            entropy.reset_stream(0)
+        x, y = int(k.x), int(k.y)
+        ctx.obs(x % 65521, t.pos)
+        ctx.probe("dsagen_engineered")
+        if not (1 <= x <= q - 1):
+            ctx.violate("entropy/DSA.generate/out-of-range",
+                        "DSA.generate produced a private value outside [1, q-1] when the %d-byte read at tape offset %d encodes %s" % (n, off, case["value"]),
+                        observed="x = q%+d" % (x - q) if abs(x - q) < 5 else hex(x), expected="[1, q-1]")
+        if y != pow(g, x, p_):
+            ctx.violate("entropy/DSA.generate/inconsistent", "DSA.generate produced y != g^x mod p", observed=hex(y)[:40], expected="g^x mod p")
+
+    def run_rsagen_size(self, case, ctx):
+        """The modulus has exactly the requested number of bits (odd sizes: p is one bit longer than q and has its own
+        lower bound) and the key is a function of the tape."""
+        from Crypto.PublicKey import RSA
+        bits = case["bits"]
+        ctx.state(("rsagen", bits))
+        ctx.fault("rng.seeded")
+        outs = []
+        for rep in range(2 if bits == 1025 else 1):
+            t = Tape(b"", then=("rsa%s" % case["seed"]).encode())
+            entropy.reset_stream("g-%d" % rep)
+            try:
+                k = RSA.generate(bits, randfunc=t)
+            finally:
+                entropy.reset_stream(0)
+            outs.append(int(k.n))
+            n, p_, q_ = int(k.n), int(k.p), int(k.q)
+            if n.bit_length() != bits or p_ * q_ != n:
+                ctx.violate("entropy/RSA.generate/size", "RSA.generate(%d) returned a modulus of %d bits" % (bits, n.bit_length()),
+                            observed=n.bit_length(), expected=bits)
+            lo, hi = min(p_, q_), max(p_, q_)
+            sq, sp = bits // 2, bits - bits // 2
+            # FIPS 186-4 B.3.3: each prime is at least sqrt(2) * 2^(its size - 1)
+            if lo * lo < (1 << (2 * sq - 1)) or hi * hi < (1 << (2 * sp - 1)) or lo.bit_length() != sq or hi.bit_length() != sp:
+                ctx.violate("entropy/RSA.generate/prime-bounds", "RSA.generate(%d) returned a prime below sqrt(2)*2^(size-1) or of the wrong size" % bits,
+                            observed=(lo.bit_length(), hi.bit_length()), expected=(sq, sp))
+        ctx.obs(outs[0] % 65521)
+        if len(set(outs)) != 1:
+            ctx.violate("entropy/RSA.generate/not-a-function-of-the-tape", "the same tape gave two different RSA keys", observed="different", expected="equal")
 
     def _keys(self, name):
         from Crypto.PublicKey import ECC
